@@ -187,7 +187,41 @@ def run(facts, tier):
     res.functions_analysed = 12
     import staleidx
     staleidx.rule(facts, res, "C14-7", lambda f: f["crate"] in ("xml_info", "xml_dom"), floor=7)
+    c14_8(facts, res)
     return res
+
+
+def c14_8(facts, res):
+    """Items cache their key together with the ordering version (HasContext::order re-reads the key when the cached version
+    is older).  Every operation that shifts DocumentOrder.order therefore has to bump DocumentOrder.version on the same
+    path, otherwise items behind the shift keep a stale cached key.  (push appends and shifts nothing.)"""
+    import guards
+    import staleidx
+    st = res.rule("C14-8", instances=0)
+    for f in facts.fns.values():
+        if not f["path"].startswith("xml_info::DocumentOrder::") or "body" not in f or f.get("parent"):
+            continue
+        for n in walk(f["body"]):
+            if n.get("k") != "Block":
+                continue
+            stmts = [x.get("e") or x.get("init") or {} for x in n.get("stmts", [])] + ([n["expr"]] if "expr" in n else [])
+            for i, e in enumerate(stmts):
+                shifts = [m for m in walk(e) if m.get("k") == "MethodCall" and m["m"] in staleidx.SHIFT and m["m"] != "pop"
+                          and m.get("recv", {}).get("k") == "Field" and m["recv"].get("name") == "order"
+                          and m["recv"].get("basety") == "DocumentOrder"]
+                # only the block that directly holds the shifting statement
+                if not shifts or (e.get("k") in ("If", "Match", "Block", "Loop")):
+                    continue
+                st["instances"] += 1
+                bumped = any(x.get("k") == "AssignOp" and x.get("op") == "+=" and x["l"].get("k") == "Field" and x["l"].get("name") == "version"
+                             and x["l"].get("basety") == "DocumentOrder" for later in stmts[i + 1:] for x in walk(later))
+                res.oblige(1, bumped)
+                if not bumped:
+                    res.add(Finding("C14-8", f["path"].split("::")[-1] + "|" + shifts[0]["m"], "%s shifts the order vector (Vec::%s) without "
+                                    "bumping `version`: the keys cached by the items behind the shift stay valid in their eyes and are "
+                                    "now off by one" % (f["path"], shifts[0]["m"]), f["file"], shifts[0].get("ln"), {}))
+    if st["instances"] < 3:
+        raise BrokenCheck("C14-8: %d shifting statements in DocumentOrder (floor 3)" % st["instances"])
 
 
 def _guard_on_get(facts, f, defs, site_bb):
